@@ -50,7 +50,9 @@ static void case_sqrt(ByteSource& in, CaseInfo& ci) {
     else { REQUIRE(rn <= un, "mpn_sqrtrem: remainder size %zu > n", rn); REQUIRE(Int::from_limbs(mode == 0 ? rg.p() : ug.p(), rn) == R, "mpn_sqrtrem(n=%zu, mode %u): wrong remainder", un, mode); REQUIRE(rn == R.size(), "mpn_sqrtrem: returned remainder size %zu, actual %zu (zero return must mean perfect square)", rn, R.size()); }
     if (mode != 1) REQUIRE(memcmp(ug.p(), U.m.data(), un * 8) == 0, "mpn_sqrtrem: source modified"); ci.label(mode == 1 ? "sqrtrem:r2p==sp" : mode == 2 ? "sqrtrem:r2p==NULL" : "sqrtrem:separate"); }
   else if (f == 3) { if (in.chance(40)) { U = -U; mpz_from_int(u, U); } bool e = !U.neg && R.is_zero(); if (U.neg) e = false; int g = mpz_perfect_square_p(u); REQUIRE((g != 0) == e, "mpz_perfect_square_p: returned %d, expected %d", g, (int)e); }
-  else { if (U.is_zero()) return; int g = mpn_perfect_square_p(U.m.data(), U.size()); REQUIRE((g != 0) == R.is_zero(), "mpn_perfect_square_p(n=%zu): returned %d, expected %d", U.size(), g, (int)R.is_zero()); }
+  else { // the manual states no most-significant-limb condition for this function ({0} is the only way to ask about 0): high zero limbs now and then
+    std::vector<uint64_t> pl(U.m.begin(), U.m.end()); size_t hz = in.chance(70) ? (size_t)in.range(1, 4) : 0; if (pl.empty() && !hz) hz = 1; pl.resize(pl.size() + hz, 0); if (hz) ci.label("mpn_perfect_square_p:high_zero_limbs");
+    int g = mpn_perfect_square_p(pl.data(), (mp_size_t)pl.size()); REQUIRE((g != 0) == R.is_zero(), "mpn_perfect_square_p(n=%zu): returned %d, expected %d", U.size(), g, (int)R.is_zero()); }
 }
 static void case_root(ByteSource& in, CaseInfo& ci) {
   size_t cap = std::max<size_t>(1, expcap(in.scale, 2, 500)); uint64_t n; Int U = gen_u(in, cap, n, ci);
@@ -102,6 +104,7 @@ static void sweep_palette(uint64_t i, CaseInfo& ci) {
   REQUIRE((mpz_perfect_square_p(u) != 0) == (S * S == U), "mpz_perfect_square_p(%s)", show(U).c_str());
   if (!U.is_zero()) { size_t n = U.m.size(); std::vector<uint64_t> sq((n + 1) / 2 + 1), rm(n + 1); mp_size_t rn = mpn_sqrtrem(sq.data(), rm.data(), U.m.data(), (mp_size_t)n); REQUIRE(Int::from_limbs(sq.data(), (n + 1) / 2) == S && Int::from_limbs(rm.data(), (size_t)rn) == U - S * S, "mpn_sqrtrem(%s)", show(U).c_str());
     REQUIRE((mpn_perfect_square_p(U.m.data(), (mp_size_t)n) != 0) == (S * S == U), "mpn_perfect_square_p(%s)", show(U).c_str()); }
+  { std::vector<uint64_t> pl(U.m.begin(), U.m.end()); pl.push_back(0); pl.push_back(0); for (size_t k = pl.size() - 2 + (U.is_zero() ? 1 : 0); k <= pl.size(); k++) if (k) REQUIRE((mpn_perfect_square_p(pl.data(), (mp_size_t)k) != 0) == (S * S == U), "mpn_perfect_square_p(%s stored in %zu limbs)", show(U).c_str(), k); }
   REQUIRE((mpz_perfect_power_p(u) != 0) == ref_perfect_power(U), "mpz_perfect_power_p(%s)", show(U).c_str()); mpz_neg(m, u); REQUIRE((mpz_perfect_power_p(m) != 0) == ref_perfect_power(-U), "mpz_perfect_power_p(-%s)", show(U).c_str());
   static const uint64_t NS[] = {1, 2, 3, 4, 5, 7, 8, 63, 64, 65, 127, 128, 129, 192, 255, 256, 257, 1ull << 32, ~0ull};
   for (uint64_t n : NS) { Int R = ref::iroot(U, n), Rem = U - ref::pow(R, n); int ex = mpz_root(r, u, n); REQUIRE_WF(r, "mpz_root"); REQUIRE(int_from_mpz(r) == R && (ex != 0) == Rem.is_zero(), "mpz_root(%s, %llu)", show(U).c_str(), (unsigned long long)n);
@@ -124,6 +127,6 @@ static void check(ByteSource& in, CaseInfo& ci) { switch (in.pick({5, 5, 3})) { 
 namespace eng {
 PropDef g_prop = {"C09",
   "Cases: u = k^n + delta (delta in {0,+-1,+-2,random}; k with long runs of ones, 2^j, 2^j-1, small k; n = 2, 3..7, 8..70, up to beyond the bit length of u, and now and then up to the largest unsigned long) or random u; mpz_sqrt / mpz_sqrtrem (outputs aliasing the operand) / mpn_sqrtrem (r2p separate, == sp, NULL; odd and even limb counts) / mpz_perfect_square_p (also negative) / mpn_perfect_square_p; mpz_root / mpz_nthroot / mpz_rootrem for n>=1 and negative u with odd n; mpz_perfect_power_p on powers, near-misses, p^i*q^j, all |u| <= 70000, negative values. Oracle: refint integer roots (Newton, verified by s^2<=u<(s+1)^2 in the self-test), remainder u - root^n, exactness flag <=> remainder 0, perfect power by root extraction over all prime exponents. Non-trivial: u >= 2 limbs or n beyond the bit length. Distinct = hash of all decoded choices.",
-  check, nullptr, {"exact_power", "power_minus_1", "power_plus_1", "n_gt_bits", "huge_root_index", "negative_odd_root", "odd_limb_count", "sqrtrem:r2p==sp", "sqrtrem:r2p==NULL", "perfpow:true", "perfpow:smooth_common_multiplicity", "perfpow:negative_true", "ge_rootrem_threshold"}, nullptr, sweep_count, sweep_item,
+  check, nullptr, {"exact_power", "power_minus_1", "power_plus_1", "n_gt_bits", "huge_root_index", "negative_odd_root", "odd_limb_count", "sqrtrem:r2p==sp", "sqrtrem:r2p==NULL", "perfpow:true", "perfpow:smooth_common_multiplicity", "perfpow:negative_true", "ge_rootrem_threshold", "mpn_perfect_square_p:high_zero_limbs"}, nullptr, sweep_count, sweep_item,
   "every u in [0,2^16): mpz_sqrt, mpz_sqrtrem, mpn_sqrtrem, mpz/mpn_perfect_square_p, mpz_perfect_power_p of u and -u, mpz_root/rootrem/nthroot for n = 1..18 (and of -u for odd n); plus every value of up to four limbs with limbs from {0,1,2^63-1,2^63,2^64-2,2^64-1} (1296 values): sqrt, sqrtrem, mpn_sqrtrem, perfect_square_p, perfect_power_p (also negated), root/rootrem/nthroot for n in {1..5,7,8,63..65,127..129,192,255..257,2^32,2^64-1} (and of -u for odd n)"};
 }
